@@ -258,6 +258,17 @@ pub fn after_op(
             let spec = cur.appts.get(k).and_then(|a| g.sys.blobs.get(&a.0).cloned());
             if decrypts_to(spec.as_ref(), tr.0) != Some(p) || tr.0 != k.0 {
                 g.rep.fail("C01", "tracker_wrong_data", &format!("tracker {k:?} holds (t{}, t{}), not the dispute/penalty of its appointment", tr.0 * 16, p * 16));
+                // C02: reported as responded although what the node was given is not this appointment's penalty
+                // (or its blob does not decrypt at all)
+                g.rep.fail("C02", "responded_without_own_penalty", &format!("tracker {k:?} created with penalty t{}, which is not what the appointment's blob decrypts to under t{}", p * 16, tr.0 * 16));
+                // C06: ... and it is what ANOTHER user's appointment under the same locator decrypts to: that user's
+                // penalty is now readable by (and acted on for) this one
+                let others = prev.appts.iter().chain(cur.appts.iter()).any(|(k2, a2)| {
+                    k2.0 == k.0 && k2.1 != k.1 && decrypts_to(g.sys.blobs.get(&a2.0), tr.0) == Some(p)
+                });
+                if others {
+                    g.rep.fail("C06", "other_users_penalty_in_tracker", &format!("tracker {k:?} of u{} carries penalty t{}, which belongs to another user's appointment under the same locator", k.1, p * 16));
+                }
             }
         }
     }
